@@ -139,7 +139,7 @@ def exhaustive(windows, b12s, alphabet, maxlen):
 def generate(ctx, escalate=False):
     rng = ctx.rng
     thorough = ctx.thorough()
-    n = 300000 if thorough else 12000
+    n = 150000 if thorough else 12000
     if escalate:
         n *= 3
     out = []
